@@ -260,6 +260,57 @@ theorem countBlock_eq (B : Nat) (v : Bits) (i : Nat) : countBlock B v i = (getRe
   rw [foldl_count (fun j => getBit B v i j), List.countP_map]
   simp; rfl
 
+/-! ### whole-vector counts -/
+
+/-- consecutive `B`-wide slices of a list whose length is `n*B` concatenate to the list -/
+theorem flatten_slices (B : Nat) : ∀ (n : Nat) (v : Bits), v.length = n * B →
+    ((List.range n).map (fun i => (v.drop (i * B)).take B)).flatten = v
+  | 0, v, h => by
+    have : v = [] := List.eq_nil_of_length_eq_zero (by simpa using h)
+    simp [this]
+  | n + 1, v, h => by
+    rw [List.range_succ_eq_map, List.map_cons, List.flatten_cons, List.map_map]
+    have hd : (v.drop B).length = n * B := by rw [List.length_drop, h, Nat.add_mul]; omega
+    have ih := flatten_slices B n (v.drop B) hd
+    have hf : ((fun i => (v.drop (i * B)).take B) ∘ Nat.succ) = (fun i => ((v.drop B).drop (i * B)).take B) := by
+      funext i
+      simp only [Function.comp, List.drop_drop]
+      congr 2
+      rw [Nat.succ_mul]; omega
+    rw [hf, ih]
+    simp
+
+theorem abs_flatten {B : Nat} {v : Bits} (h : Inv B v) : (abs B v).flatten = v := by
+  have hs := size_mul h
+  have : abs B v = (List.range (size B v)).map (fun i => (v.drop (i * B)).take B) := by
+    unfold abs
+    apply List.map_congr_left
+    intro i hi
+    exact getRepr_eq_slice (List.mem_range.mp hi)
+  rw [this]
+  exact flatten_slices B (size B v) v hs.symm
+
+theorem countP_flatten {β : Type} (p : β → Bool) : ∀ (l : List (List β)), l.flatten.countP p = (l.map (List.countP p)).sum
+  | [] => rfl
+  | x :: t => by simp [List.countP_append, countP_flatten p t]
+
+/-- `count()` is the sum of the block counts -/
+theorem count_eq {B : Nat} {v : Bits} (h : Inv B v) : count v = ((abs B v).map (List.countP (fun b => b))).sum := by
+  rw [← countP_flatten, abs_flatten h]
+  unfold count
+  congr 1
+  funext b; cases b <;> rfl
+
+/-- `countmasked(j)` counts the blocks whose bit `j` is set -/
+theorem countmasked_eq {B : Nat} (v : Bits) {j : Nat} (hj : j < B) :
+    countmasked B v j = (abs B v).countP (fun blk => blk.getD j false) := by
+  unfold countmasked abs
+  rw [foldl_count (fun i => getBit B v i j), List.countP_map, Nat.zero_add]
+  congr 1
+  funext i
+  simp only [Function.comp]
+  exact (getD_getRepr v i hj).symm
+
 theorem allBlock_eq (B : Nat) (v : Bits) (i : Nat) : allBlock B v i = (getRepr B v i).all (fun b => b) := by
   unfold allBlock getRepr
   rw [List.all_map]; rfl
@@ -579,4 +630,96 @@ theorem run_refines {B : Nat} (hB : 0 < B) (ops : List Op) :
     rw [h2] at this
     exact this
 
+/-! ### `std::bitset` operations as operations on the number the bits stand for -/
+
+/-- the number a `std::bitset` stands for (`to_ullong` for arbitrary width): bit `j` has weight `2^j` -/
+def toNat : Bits → Nat
+  | [] => 0
+  | b :: t => (if b then 1 else 0) + 2 * toNat t
+
+theorem testBit_toNat : ∀ (a : Bits) (j : Nat), (toNat a).testBit j = a.getD j false
+  | [], j => by simp [toNat]
+  | b :: t, 0 => by
+    simp only [toNat, Nat.testBit_zero, List.getD_cons_zero]
+    cases b <;> simp <;> omega
+  | b :: t, j + 1 => by
+    rw [Nat.testBit_succ, List.getD_cons_succ, ← testBit_toNat t j]
+    congr 1
+    simp only [toNat]
+    cases b <;> simp <;> omega
+
+theorem toNat_lt (a : Bits) : toNat a < 2 ^ a.length := by
+  apply Nat.lt_pow_two_of_testBit
+  intro i hi
+  rw [testBit_toNat, List.getD_eq_getElem?_getD, List.getElem?_eq_none (by omega)]
+  rfl
+
+theorem getD_map_range (n : Nat) (f : Nat → Bool) (j : Nat) :
+    ((List.range n).map f).getD j false = (decide (j < n) && f j) := by
+  rw [List.getD_eq_getElem?_getD, List.getElem?_map]
+  by_cases h : j < n
+  · rw [List.getElem?_range h]; simp [h]
+  · rw [List.getElem?_eq_none (by simp; omega)]; simp [h]
+
+/-- `b >> n` is division by `2^n` -/
+theorem toNat_bShr (a : Bits) (n : Nat) : toNat (bShr a n) = toNat a / 2 ^ n := by
+  rw [← Nat.shiftRight_eq_div_pow]
+  apply Nat.eq_of_testBit_eq
+  intro j
+  rw [testBit_toNat, Nat.testBit_shiftRight, testBit_toNat, bShr, getD_map_range, Nat.add_comm]
+  by_cases h : j < a.length
+  · simp [h]
+  · have : a[n + j]? = none := List.getElem?_eq_none (by omega)
+    simp [h, this]
+
+/-- `b << n` is multiplication by `2^n` modulo `2^B` -/
+theorem toNat_bShl (a : Bits) (n : Nat) : toNat (bShl a n) = (toNat a * 2 ^ n) % 2 ^ a.length := by
+  rw [← Nat.shiftLeft_eq]
+  apply Nat.eq_of_testBit_eq
+  intro j
+  rw [testBit_toNat, Nat.testBit_mod_two_pow, Nat.testBit_shiftLeft, testBit_toNat, bShl, getD_map_range]
+  by_cases h1 : j < a.length <;> by_cases h2 : n ≤ j <;> simp [h1, h2]
+
+/-- `~b` is the complement within `B` bits -/
+theorem toNat_bNot (a : Bits) : toNat (bNot a) = 2 ^ a.length - 1 - toNat a := by
+  have hlt := toNat_lt a
+  have e : 2 ^ a.length - 1 - toNat a = 2 ^ a.length - (toNat a + 1) := by omega
+  rw [e]
+  apply Nat.eq_of_testBit_eq
+  intro j
+  rw [testBit_toNat, Nat.testBit_two_pow_sub_succ hlt, testBit_toNat, bNot]
+  by_cases h : j < a.length
+  · simp [h, List.getD_eq_getElem?_getD, List.getElem?_map, List.getElem?_eq_getElem h]
+  · have h1 : (a.map (!·)).getD j false = false := by
+      rw [List.getD_eq_getElem?_getD, List.getElem?_eq_none (by simp; omega)]; rfl
+    simp [h, h1]
+
+theorem getD_zipWith' (f : Bool → Bool → Bool) (hf : f false false = false) (a b : Bits) (hl : a.length = b.length) (j : Nat) :
+    (List.zipWith f a b).getD j false = f (a.getD j false) (b.getD j false) := by
+  by_cases h : j < a.length
+  · simp [List.getD_eq_getElem?_getD, List.getElem?_zipWith, List.getElem?_eq_getElem h,
+      List.getElem?_eq_getElem (hl ▸ h)]
+  · have h1 : a.getD j false = false := by rw [List.getD_eq_getElem?_getD, List.getElem?_eq_none (by omega)]; rfl
+    have h2 : b.getD j false = false := by rw [List.getD_eq_getElem?_getD, List.getElem?_eq_none (by omega)]; rfl
+    have h3 : (List.zipWith f a b).getD j false = false := by
+      rw [List.getD_eq_getElem?_getD, List.getElem?_eq_none (by simp; omega)]; rfl
+    rw [h1, h2, h3, hf]
+
+/-- `&`, `|`, `^` are the bitwise operations on the numbers -/
+theorem toNat_bitwise {a b : Bits} (hl : a.length = b.length) :
+    toNat (bAnd a b) = toNat a &&& toNat b ∧ toNat (bOr a b) = toNat a ||| toNat b ∧
+      toNat (bXor a b) = toNat a ^^^ toNat b := by
+  refine ⟨?_, ?_, ?_⟩ <;> apply Nat.eq_of_testBit_eq <;> intro j
+  · rw [testBit_toNat, Nat.testBit_and, testBit_toNat, testBit_toNat, bAnd, getD_zipWith' _ rfl a b hl]
+  · rw [testBit_toNat, Nat.testBit_or, testBit_toNat, testBit_toNat, bOr, getD_zipWith' _ rfl a b hl]
+  · rw [testBit_toNat, Nat.testBit_xor, testBit_toNat, testBit_toNat, bXor, getD_zipWith' _ rfl a b hl]
+
+/-- the number determines the bitset (of a given width) -/
+theorem toNat_inj {a b : Bits} (hl : a.length = b.length) (h : toNat a = toNat b) : a = b := by
+  apply List.ext_getElem hl
+  intro j h1 h2
+  have := congrArg (fun x => Nat.testBit x j) h
+  simp only [testBit_toNat, List.getD_eq_getElem?_getD, List.getElem?_eq_getElem h1, List.getElem?_eq_getElem h2,
+    Option.getD_some] at this
+  exact this
 end DV.C11.BV
